@@ -273,7 +273,7 @@ func b2b(b bool) byte {
 func init() { register("C15", "model_checking", runC15) }
 
 func runC15(ctx *core.Ctx) {
-	ctx.Rule("the programs quantifier is finite and enumerated completely: every exported Point operation (table cross-checked against reflection) x every Point-typed input position (receiver when read; every index of the points slice for n in 1..3) x 5 ways of producing a zero value x every assignment of the other-argument alphabet to the other positions (10 points: all of E[8] - every point with a zero coordinate - plus the generator and a mixed point, each in canonical Z=1 limbs and in a projective representation; the canonical half when three other positions vary) -> must panic; the same calls with all inputs valid and only the receiver zero-valued -> must not panic and must leave an initialised point; multi-scalar calls with (len scalars, len points) in {0..4}^2 x every assignment of {generic, 0, 1, l-1} to the scalar positions -> panic iff the lengths differ. states = (operation, zero position, term count) cells, transitions = calls executed. distinct_nontrivial = distinct (op, n, position, outcome) cells")
+	ctx.Rule("the programs quantifier is finite and enumerated completely: every exported Point operation (table cross-checked against reflection) x every Point-typed input position (receiver when read; every index of the points slice for n in 1..3) x 5 ways of producing a zero value x every assignment of the other-argument alphabet to the other positions (10 points: all of E[8] - every point with a zero coordinate - plus the generator and a mixed point, each in canonical Z=1 limbs and in a projective representation; the canonical half when three other positions vary, in the quick tier) -> must panic; the same calls with all inputs valid and only the receiver zero-valued -> must not panic and must leave an initialised point; multi-scalar calls with (len scalars, len points) in {0..4}^2 x every assignment of {generic, 0, 1, l-1} to the scalar positions -> panic iff the lengths differ. states = (operation, zero position, term count) cells, transitions = calls executed. distinct_nontrivial = distinct (op, n, position, outcome) cells")
 	ctx.Assume("a panic is observed with recover() in the caller")
 	noteUncovered(ctx)
 	var cases []misuseCase
@@ -306,7 +306,7 @@ func runC15(ctx *core.Ctx) {
 				// full alphabet (point x representation) for up to two other
 				// positions, the canonical half for three
 				size := misuseVals
-				if len(others) >= 3 {
+				if len(others) >= 3 && ctx.Quick() {
 					size = misusePts
 				}
 				tuples := 1
